@@ -171,6 +171,10 @@ DIRECTED: Dict[str, Dict[str, str]] = {
         'app/__init__.py': '', 'app/views.py': 'import lib.core.impl\nclass View(lib.core.Alpha):\n    pass\nclass View2(lib.core.impl.Alpha):\n    pass\n',
         'lib/__init__.py': '', 'lib/core/__init__.py': 'from .impl import Alpha\nfrom .impl import make_alpha as mk\n',
         'lib/core/impl.py': 'class Alpha:\n    pass\ndef make_alpha():\n    pass\n', 'lib/user.py': 'from lib.core import *\nimport lib.core as lc\nclass U(lc.Alpha):\n    pass\n'},
+    # aliases whose right-hand side spells the full name of its target through a plain `import a.b` (nothing to expand: still an alias)
+    'aliases-spelling-full-names': {
+        'pb/__init__.py': 'TOP = 1\n', 'pb/core.py': 'def fb():\n    pass\nclass Gamma:\n    pass\n', 'pa/__init__.py': '',
+        'pa/m2.py': 'import pb.core\nimport pb\nX = pb.core.fb\nP = pb\nK = pb.core.Gamma\nM = pb.core\nclass C:\n    Y = pb.core.fb\n    Q = pb.core\n    class D(pb.core.Gamma):\n        Z = pb.core.Gamma\n'},
     # a class binds a name through a package that merely re-imports it (pydoctor may not follow that: "not at all" is allowed), while the
     # module and the enclosing class bind the same name to other objects (which Python never consults for the class)
     'class-binding-shadowed-by-enclosing-scopes': {
